@@ -448,6 +448,7 @@ var handOrderItems = [][]SDLItem{
 	ordItems("schema { query: Root mutation: Mut }", "extend schema @tag", "directive @tag on SCHEMA | OBJECT", "type Root @tag { a: Int }", "extend type Mut { m: Int }"),
 	ordItems("extend enum Color { BLUE }", "extend enum Color { GREEN }", "enum Color { RED }", "type Query { c(d: Color = GREEN): Color }", "extend input Filter { c: Color = BLUE }", "extend type Query { f(x: Filter): Int }"),
 	ordItems("extend scalar Date @tag", "scalar Date", "directive @tag repeatable on SCALAR", "extend scalar Date @tag", "type Query { d: Date }"),
+	ordItems("extend type __Type { mine: Int }", "extend scalar String @tag", "extend enum __TypeKind { EXTRA }", "directive @tag on SCALAR", "type Query { a: String t: __Type }"),
 	// a type that exists through extensions only, and the extensions disagree about its kind
 	ordItems("extend type Ghost { x: Int }", "extend interface Ghost { y: Int }", "type Query { a: Int }"),
 	ordItems("type Query { g: Ghost }", "extend union Ghost = Query", "extend enum Ghost { A }", "extend union Ghost = Other", "type Other { o: Int }"),
@@ -515,6 +516,11 @@ func smallTypeSystems(k int) []string {
 }
 
 var handSchemas = []string{
+	// the same extensions of BUILT-IN definitions loaded again and again in one process (twice here, once more per
+	// permutation in C17): every load starts from pristine built-ins
+	"extend type __Type { mine: Int } extend scalar String @tag extend enum __TypeKind { EXTRA } directive @tag on SCALAR type Query { a: String }",
+	"extend type __Type { mine: Int } extend scalar String @tag extend enum __TypeKind { EXTRA } directive @tag on SCALAR type Query { a: String } # again",
+	"type Query { t: __Type k: __TypeKind s: String }",
 	// nullability at an intermediate list level (every level counts for covariance)
 	"interface I { c: [[Int]!] } type T implements I { c: [[Int]] } type Query { t: T }",
 	"interface I { c: [[Int]!] } type T implements I { c: [[Int]!]! } type Query { t: T }",
